@@ -276,6 +276,20 @@ func DependsOn(v ssa.Value, pred func(ssa.Value) bool) bool {
 				}
 			}
 		}
+		// variadic / literal slices: the elements stored into the backing array
+		if sl, ok := v.(*ssa.Slice); ok {
+			if al, ok := sl.X.(*ssa.Alloc); ok && al.Referrers() != nil {
+				for _, r := range *al.Referrers() {
+					if ia, ok := r.(*ssa.IndexAddr); ok && ia.Referrers() != nil {
+						for _, rr := range *ia.Referrers() {
+							if st, ok := rr.(*ssa.Store); ok && walk(st.Val, depth+1) {
+								return true
+							}
+						}
+					}
+				}
+			}
+		}
 		in, ok := v.(ssa.Instruction)
 		if !ok {
 			return false
@@ -414,4 +428,18 @@ func ReturnValues(ret *ssa.Return) []ssa.Value {
 		}
 	}
 	return out
+}
+
+// Instrs0 returns the instruction that loads the element addressed by an IndexAddr
+// (the per-iteration element of a range loop), or nil.
+func Instrs0(ia *ssa.IndexAddr) ssa.Instruction {
+	if ia.Referrers() == nil {
+		return nil
+	}
+	for _, r := range *ia.Referrers() {
+		if u, ok := r.(*ssa.UnOp); ok && u.Op == token.MUL {
+			return u
+		}
+	}
+	return nil
 }
